@@ -57,6 +57,28 @@ CLAIMED["C15"] = dict(
     technique="TLA+ specification (Ring) model-checked with TLC incl. liveness; TLC-generated schedules replayed through scheduler gates",
     design="6 C15")
 
+CLAIMED["C03"] = dict(
+    text="The Codec specification is a reference wire codec transcribed from MQTT 3.1.1 into TLA+ (Wire, Parse; TLC checks that Parse "
+         "inverts Wire and the frame arithmetic on every explicit case). TLC enumerates the product of boundary classes (5.4 k cases over "
+         "all 14 packet types); each case is built through the public setters and compared with the reference: Len, Encode bytes, "
+         "Decode length and fields, re-encode, decode with trailing bytes, undersized buffer. PacketId specifies the automatic "
+         "identifier (never 0); 131,073 consecutive automatically numbered encodes are checked in one process.",
+    note="This is the 'self-contained function with rich case analysis' use of the technique: exhaustive over classes of field values, "
+         "not over all values; a differential check against a specification-level codec, not a proof. Trusted: TLC, the seed expansion "
+         "in harness/codec.go.",
+    technique="TLA+ reference codec (Codec, PacketId) enumerated by TLC; one implementation test per case (model-based test generation)",
+    design="6 C03")
+CLAIMED["C04"] = dict(
+    text="Codec!Parse is a total reference parser; TLC evaluates it on all 142 k byte strings of length <= 4 over a 19-byte structure "
+         "alphabet. Every string is fed to all 14 decoders in a slice with cap = len inside a canary array under recover: no panic, n <= len, "
+         "fields inside the decoded packet, and every string the reference parser accepts is accepted with the same length and fields. "
+         "Truncations at/next to every segment boundary and edits of every structure byte of every reference case (segment structure "
+         "printed by the specification), and seeded random strings, are checked for totality.",
+    note="Totality over all byte strings is approximated by structured + random inputs; Go's own bounds checks turn out-of-range reads into "
+         "panics (what is observed), silent over-reads are only possible within cap, hence cap = len. Leniencies are counted, not reported.",
+    technique="TLA+ total reference parser (Codec!Parse) enumerated by TLC; spec-derived mutations; decoders run under recover against it",
+    design="6 C04")
+
 NOT_APPLICABLE = {
     "C18": "data-race freedom is a property of individual memory accesses under the Go memory model; a TLA+ specification "
            "observes actions, not loads and stores, and could only be bound to the code by hand-placed annotations (DESIGN.md section 7)",
